@@ -19,6 +19,7 @@ def eout(o):
 
 def run(run, args):
     L, nrand = (3, 3000) if run.tier == "quick" else (4, 60000)
+    nrand *= run.scale
     ok, log = build_harness()
     run.oblige("harness builds against /repo", ok, log[-400:] if not ok else "")
     if not ok:
